@@ -2,50 +2,58 @@
    Model: Model/Patterns.v (first analysis pass of the Go code on the shared AST); patterns: Spec/PatternSpec.v.
    Only statements closed by `exact` + Print Assumptions live here (and vm_compute witnesses).
    [fclose] is the oracle for "two float literals denote (nearly) the same number"; every theorem holds for all of them.
-   reported ty L rs = a report of type ty at Loc L is in rs. *)
+   reported ty L rs = a report of type ty at Loc L is in rs.
+
+   The model carries a record of fix flags [fx : fixes] (Model/Patterns.v): [no_fixes] = the code as found,
+   [deployed] = the code of /repo after the repairs fixes/C20-*.diff (all but C20-local-surplus), [all_fixes].
+   Part 1: what holds for EVERY variant (so for the code as found and for the repaired code alike) - the theorems of
+           round 1, unchanged in content.
+   Part 2: what the repairs add: the guards that excluded the defects are gone.
+   Part 3: whole files.   Part 4: witnesses - the deviations that remain, and the repaired ones as regression examples. *)
 From Coq Require Import List NArith ZArith Bool Arith String.
 From LH Require Import Base.Bytes Base.Res Model.Lexer Model.Ast Model.Parser Model.LuaFront Spec.PatternSpec
   Model.Patterns Proofs.PatternsLocal Proofs.PatternsTree Proofs.PatternsCompExp Proofs.PatternsClasses
-  Proofs.PatternsGuarded Proofs.PatternsWitness.
+  Proofs.PatternsGuarded Proofs.PatternsKeys Proofs.PatternsFile Proofs.PatternsWitness.
 Import ListNotations.
 Local Open Scope N_scope.
 
 (* ================================================================== the full statement (refuted below) *)
 (* for every file that parses without error: the published reports of the ten types = the places the patterns demand *)
-Definition C20_full : Prop :=
+Definition C20_full_for (fx : fixes) : Prop :=
   forall fclose gbk bs o,
-    check_bytes fclose gbk classify_tok bs = Ok o -> o_valid o = true ->
+    check_bytes fx fclose gbk classify_tok bs = Ok o -> o_valid o = true ->
     forall ty L, reported ty L (o_model o) <-> In (ty, L) (o_spec o).
+Definition C20_full : Prop := C20_full_for deployed.
 
-(* ================================================================== the checks, node by node *)
+(* ================================================================== Part 1: every variant of the code *)
 (* 21: `e1 == e2` / `e1 ~= e2` with a float literal operand, at the Loc of the comparison - exact, no guard *)
-Theorem C20_t21_iff : forall op e1 e2 l L,
-  reported 21 L (binop_checks op e1 e2 l) <-> Pattern21 op e1 e2 /\ L = l.
+Theorem C20_t21_iff : forall fx fclose op e1 e2 l L,
+  reported 21 L (binop_checks fx fclose op e1 e2 l) <-> Pattern21 op e1 e2 /\ L = l.
 Proof. exact t21_iff. Qed.
 Print Assumptions C20_t21_iff.
 
-(* 15 / 16: exact up to GetExpLoc: both operands must have a non-zero Location (nil has none: C20_t15_nil_refuted) *)
-Theorem C20_t15_iff : forall op e1 e2 l L,
-  reported 15 L (binop_checks op e1 e2 l)
-  <-> Pattern15 op e1 e2 /\ has_place e1 /\ has_place e2 /\ L = operands_loc e1 e2.
+(* 15 / 16: exact up to GetExpLoc: both operands must have a non-zero Location *)
+Theorem C20_t15_iff : forall fx fclose op e1 e2 l L,
+  reported 15 L (binop_checks fx fclose op e1 e2 l)
+  <-> Pattern15 op e1 e2 /\ has_place fx e1 /\ has_place fx e2 /\ L = operands_loc fx e1 e2.
 Proof. exact t15_iff. Qed.
 Print Assumptions C20_t15_iff.
 
-Theorem C20_t15_iff_guarded : forall op e1 e2 l L,
-  located e1 -> located e2 ->
-  (reported 15 L (binop_checks op e1 e2 l) <-> Pattern15 op e1 e2 /\ L = span (exp_loc e1) (exp_loc e2)).
+Theorem C20_t15_iff_guarded : forall fx fclose op e1 e2 l L,
+  located fx e1 -> located fx e2 ->
+  (reported 15 L (binop_checks fx fclose op e1 e2 l) <-> Pattern15 op e1 e2 /\ L = span (exp_loc e1) (exp_loc e2)).
 Proof. exact t15_iff_guarded. Qed.
 Print Assumptions C20_t15_iff_guarded.
 
-Theorem C20_t16_iff : forall op e1 e2 l L,
-  reported 16 L (binop_checks op e1 e2 l)
-  <-> Pattern16 op e1 e2 /\ has_place e1 /\ has_place e2 /\ L = operands_loc e1 e2.
+Theorem C20_t16_iff : forall fx fclose op e1 e2 l L,
+  reported 16 L (binop_checks fx fclose op e1 e2 l)
+  <-> Pattern16 op e1 e2 /\ has_place fx e1 /\ has_place fx e2 /\ L = operands_loc fx e1 e2.
 Proof. exact t16_iff. Qed.
 Print Assumptions C20_t16_iff.
 
-Theorem C20_t16_iff_guarded : forall op e1 e2 l L,
-  located e1 -> located e2 ->
-  (reported 16 L (binop_checks op e1 e2 l) <-> Pattern16 op e1 e2 /\ L = span (exp_loc e1) (exp_loc e2)).
+Theorem C20_t16_iff_guarded : forall fx fclose op e1 e2 l L,
+  located fx e1 -> located fx e2 ->
+  (reported 16 L (binop_checks fx fclose op e1 e2 l) <-> Pattern16 op e1 e2 /\ L = span (exp_loc e1) (exp_loc e2)).
 Proof. exact t16_iff_guarded. Qed.
 Print Assumptions C20_t16_iff_guarded.
 
@@ -57,8 +65,8 @@ Proof. exact t13_iff. Qed.
 Print Assumptions C20_t13_iff.
 
 (* 7 / 8: exact *)
-Theorem C20_t7_iff : forall fclose vars es l L,
-  reported 7 L (assign_checks fclose vars es l) <-> Pattern7 vars es /\ L = l.
+Theorem C20_t7_iff : forall fx fclose vars es l L,
+  reported 7 L (assign_checks fx fclose vars es l) <-> Pattern7 vars es /\ L = l.
 Proof. exact t7_iff. Qed.
 Print Assumptions C20_t7_iff.
 
@@ -67,59 +75,75 @@ Theorem C20_t8_iff : forall names es l L,
 Proof. exact t8_iff. Qed.
 Print Assumptions C20_t8_iff.
 
-(* 20: exact in terms of CompExp; = the pattern when no grouping parentheses occur (C20_t20_parens_refuted) *)
-Theorem C20_t20_iff : forall fclose vars es l L,
-  reported 20 L (assign_checks fclose vars es l)
-  <-> Forall2 (fun v e => comp_exp fclose v e = true) vars es /\ L = l.
+(* 20: exact in terms of CompExp; the code as found compares with comp_exp, ... *)
+Theorem C20_t20_iff : forall fx fclose vars es l L,
+  reported 20 L (assign_checks fx fclose vars es l)
+  <-> Forall2 (fun v e => cmp fx fclose v e = true) vars es /\ L = l.
 Proof. exact t20_iff. Qed.
 Print Assumptions C20_t20_iff.
 
-Theorem C20_t20_iff_guarded : forall fclose vars es l L,
+Theorem C20_t20_iff_before : forall fclose vars es l L,
+  reported 20 L (assign_checks no_fixes fclose vars es l)
+  <-> Forall2 (fun v e => comp_exp fclose v e = true) vars es /\ L = l.
+Proof. exact (t20_iff no_fixes). Qed.
+Print Assumptions C20_t20_iff_before.
+
+(* ... = the pattern when no grouping parentheses occur *)
+Theorem C20_t20_iff_guarded : forall fx fclose vars es l L,
   Forall paren_free vars -> Forall paren_free es ->
-  (reported 20 L (assign_checks fclose vars es l) <-> Pattern20 fclose vars es /\ L = l).
+  (reported 20 L (assign_checks fx fclose vars es l) <-> Pattern20 fclose vars es /\ L = l).
 Proof. exact t20_iff_guarded. Qed.
 Print Assumptions C20_t20_iff_guarded.
 
 (* 5: exact in terms of the key strings of the code (GetTableConstuctorKeyStr): key j is reported iff an earlier key has
-   the same non-empty key string; the report sits where the code puts it (an integer key: on the whole constructor) *)
-Theorem C20_t5_iff : forall ks parent L,
-  reported 5 L (table_checks ks parent [])
-  <-> exists j key, option_map (code_key parent) (nth_error ks j) = Some (Some (key, L)) /\
-        exists i l', (i < j)%nat /\ option_map (code_key parent) (nth_error ks i) = Some (Some (key, l')).
+   the same non-empty key string; the report sits where the code puts it *)
+Theorem C20_t5_iff : forall fx ks parent L,
+  reported 5 L (table_checks fx ks parent [])
+  <-> exists j key, option_map (code_key fx parent) (nth_error ks j) = Some (Some (key, L)) /\
+        exists i l', (i < j)%nat /\ option_map (code_key fx parent) (nth_error ks i) = Some (Some (key, l')).
 Proof. exact t5_iff. Qed.
 Print Assumptions C20_t5_iff.
 
-(* 14: identical operands that have an internal name are reported (completeness) ... *)
-Theorem C20_t14_complete : forall fclose op e1 e2 l,
-  Pattern14 fclose op e1 e2 -> has_hash (exp_name e1) = false -> has_place e1 -> has_place e2 ->
-  reported 14 (operands_loc e1 e2) (binop_checks op e1 e2 l).
+(* 14: identical operands that have an internal name are reported (completeness) ...
+   [fixes_ok]: C20-t14-name-collision is applied on top of C20-parens *)
+Theorem C20_t14_complete : forall fx fclose op e1 e2 l,
+  fixes_ok fx ->
+  Pattern14 fclose op e1 e2 -> has_hash (exp_name e1) = false -> has_place fx e1 -> has_place fx e2 ->
+  reported 14 (operands_loc fx e1 e2) (binop_checks fx fclose op e1 e2 l).
 Proof. exact t14_complete. Qed.
 Print Assumptions C20_t14_complete.
 
 (* ... and on access paths (a, a.b, a["b"].c, ("s").x, parentheses allowed) the check is exact *)
-Theorem C20_t14_iff_guarded : forall fclose op e1 e2 l L,
-  path e1 = true -> path e2 = true -> located e1 -> located e2 ->
-  (reported 14 L (binop_checks op e1 e2 l) <-> Pattern14 fclose op e1 e2 /\ L = span (exp_loc e1) (exp_loc e2)).
+Theorem C20_t14_iff_guarded : forall fx fclose op e1 e2 l L,
+  fixes_ok fx ->
+  path e1 = true -> path e2 = true -> located fx e1 -> located fx e2 ->
+  (reported 14 L (binop_checks fx fclose op e1 e2 l) <-> Pattern14 fclose op e1 e2 /\ L = span (exp_loc e1) (exp_loc e2)).
 Proof. exact t14_iff_guarded. Qed.
 Print Assumptions C20_t14_iff_guarded.
 
-(* 19: exact in terms of CompExp over ALL entries of IfStat.Exps (incl. the synthetic `true` of else) ... *)
-Theorem C20_t19_iff : forall fclose es L,
-  reported 19 L (if_checks fclose es)
-  <-> exists j c, nth_error es j = Some c /\ get_exp_loc c = L /\
-                  exists i c', (i < j)%nat /\ nth_error es i = Some c' /\ comp_exp fclose c' c = true.
+(* 19: exact in terms of CompExp over the conditions compared ... *)
+Theorem C20_t19_iff : forall fx fclose es L,
+  reported 19 L (if_checks fx fclose es)
+  <-> exists j c, nth_error es j = Some c /\ get_exp_loc fx c = L /\
+                  exists i c', (i < j)%nat /\ nth_error es i = Some c' /\ cmp fx fclose c' c = true.
 Proof. exact t19_iff. Qed.
 Print Assumptions C20_t19_iff.
 
+(* ... which in the code as found are ALL entries of IfStat.Exps (incl. the synthetic `true` of else) *)
+Theorem C20_t19_conds_before : forall fclose elses es bs l,
+  local_pre no_fixes fclose elses (NS (SIf es bs l)) = if_checks no_fixes fclose es.
+Proof. exact (fun _ _ _ _ _ => eq_refl). Qed.
+Print Assumptions C20_t19_conds_before.
+
 (* ... = the pattern for an if without else branch, without grouping parentheses and without a nil / BadExpr condition *)
-Theorem C20_t19_iff_guarded : forall fclose elses es L,
-  real_conds elses es = es -> Forall paren_free es -> Forall located es ->
-  (reported 19 L (if_checks fclose es)
+Theorem C20_t19_iff_guarded : forall fx fclose elses es L,
+  real_conds elses es = es -> Forall paren_free es -> Forall (located fx) es ->
+  (reported 19 L (if_checks fx fclose es)
    <-> exists j c, Pattern19 fclose es j /\ nth_error es j = Some c /\ L = exp_loc c).
 Proof. exact t19_iff_guarded. Qed.
 Print Assumptions C20_t19_iff_guarded.
 
-(* CompExp = structural equality modulo Locs of expressions without function / table constructor *)
+(* CompExp (as found) = structural equality modulo Locs of expressions without function / table constructor *)
 Theorem C20_compexp_characterisation : forall fclose a b,
   comp_exp fclose a b = true <-> eq_mod_loc fclose a b /\ no_ctor a.
 Proof. exact comp_exp_characterisation. Qed.
@@ -130,27 +154,110 @@ Theorem C20_same_decided : forall fclose a b, same_b fclose a b = true <-> Same 
 Proof. exact same_b_iff. Qed.
 Print Assumptions C20_same_decided.
 
-(* ================================================================== the whole file *)
+(* ================================================================== Part 2: the repaired code *)
+(* C20-parens: CompExp of the repaired code IS "the same" of the specification *)
+Theorem C20_compexp_fixed : forall fx fclose a b,
+  fx_parens fx = true -> (cmp fx fclose a b = true <-> Same fclose a b).
+Proof. exact cmp_fixed. Qed.
+Print Assumptions C20_compexp_fixed.
+
+(* 20 = the pattern, no guard *)
+Theorem C20_t20_iff_fixed : forall fx fclose vars es l L,
+  fx_parens fx = true ->
+  (reported 20 L (assign_checks fx fclose vars es l) <-> Pattern20 fclose vars es /\ L = l).
+Proof. exact t20_iff_fixed. Qed.
+Print Assumptions C20_t20_iff_fixed.
+
+Corollary C20_t20_deployed : forall fclose vars es l L,
+  reported 20 L (assign_checks deployed fclose vars es l) <-> Pattern20 fclose vars es /\ L = l.
+Proof. exact (fun fclose vars es l L => t20_iff_fixed deployed fclose vars es l L eq_refl). Qed.
+Print Assumptions C20_t20_deployed.
+
+(* C20-nil-loc: GetExpLoc is the node's own Loc for every expression of the source (BadExpr = a syntax error) ... *)
+Theorem C20_get_exp_loc_fixed : forall fx e,
+  fx_nil_loc fx = true -> is_bad e = false -> get_exp_loc fx e = exp_loc e.
+Proof. exact get_exp_loc_fixed. Qed.
+Print Assumptions C20_get_exp_loc_fixed.
+
+(* ... so 15 / 16 = the pattern for all operands of the source (real_loc e: not a BadExpr, Loc not zero - lines start at 1) *)
+Theorem C20_t15_iff_fixed : forall fx fclose op e1 e2 l L,
+  fx_nil_loc fx = true -> real_loc e1 -> real_loc e2 ->
+  (reported 15 L (binop_checks fx fclose op e1 e2 l) <-> Pattern15 op e1 e2 /\ L = span (exp_loc e1) (exp_loc e2)).
+Proof. exact t15_iff_fixed. Qed.
+Print Assumptions C20_t15_iff_fixed.
+
+Theorem C20_t16_iff_fixed : forall fx fclose op e1 e2 l L,
+  fx_nil_loc fx = true -> real_loc e1 -> real_loc e2 ->
+  (reported 16 L (binop_checks fx fclose op e1 e2 l) <-> Pattern16 op e1 e2 /\ L = span (exp_loc e1) (exp_loc e2)).
+Proof. exact t16_iff_fixed. Qed.
+Print Assumptions C20_t16_iff_fixed.
+
+(* C20-t19-else + C20-parens + C20-nil-loc: the check of an if statement = the pattern over the conditions written in the
+   source; no guard on else branches, parentheses or nil (only: no condition is a BadExpr, i.e. no syntax error there) *)
+Theorem C20_t19_iff_fixed : forall fx fclose elses es bs l L,
+  fx_else fx = true -> fx_parens fx = true -> fx_nil_loc fx = true ->
+  Forall (fun c => is_bad c = false) es ->
+  (reported 19 L (local_pre fx fclose elses (NS (SIf es bs l)))
+   <-> exists j c, Pattern19 fclose (real_conds elses es) j /\ nth_error (real_conds elses es) j = Some c /\ L = exp_loc c).
+Proof. exact t19_node_fixed. Qed.
+Print Assumptions C20_t19_iff_fixed.
+
+Corollary C20_t19_deployed : forall fclose elses es bs l L,
+  Forall (fun c => is_bad c = false) es ->
+  (reported 19 L (local_pre deployed fclose elses (NS (SIf es bs l)))
+   <-> exists j c, Pattern19 fclose (real_conds elses es) j /\ nth_error (real_conds elses es) j = Some c /\ L = exp_loc c).
+Proof. exact (fun fclose elses es bs l L => t19_node_fixed deployed fclose elses es bs l L eq_refl eq_refl eq_refl). Qed.
+Print Assumptions C20_t19_deployed.
+
+(* C20-t14-name-collision (on C20-parens): 14 is sound for ALL operands; what remains is that operands without an internal
+   name (literals, calls, operators: C20_t14_literal_refuted) are never reported *)
+Theorem C20_t14_iff_fixed : forall fx fclose op e1 e2 l L,
+  fx_parens fx = true -> fx_name14 fx = true -> located fx e1 -> located fx e2 ->
+  (reported 14 L (binop_checks fx fclose op e1 e2 l)
+   <-> Pattern14 fclose op e1 e2 /\ has_hash (exp_name e1) = false /\ L = span (exp_loc e1) (exp_loc e2)).
+Proof. exact t14_iff_fixed. Qed.
+Print Assumptions C20_t14_iff_fixed.
+
+(* C20-t5-string-key + C20-t5-int-key-place: 5 = the pattern, reported on the repeated key *)
+Theorem C20_t5_iff_fixed : forall fx ks parent L,
+  fx_str_key fx = true -> fx_int_key fx = true ->
+  (reported 5 L (table_checks fx ks parent [])
+   <-> exists j ke, Pattern5 ks j /\ nth_error ks j = Some (Some ke) /\ L = exp_loc ke).
+Proof. exact (fun fx ks parent L Hs Hi => t5_iff_fixed fx Hs Hi ks parent L). Qed.
+Print Assumptions C20_t5_iff_fixed.
+
+Corollary C20_t5_deployed : forall ks parent L,
+  reported 5 L (table_checks deployed ks parent [])
+  <-> exists j ke, Pattern5 ks j /\ nth_error ks j = Some (Some ke) /\ L = exp_loc ke.
+Proof. exact (t5_iff_fixed deployed eq_refl eq_refl). Qed.
+Print Assumptions C20_t5_deployed.
+
+(* strconv.FormatInt is injective (behind the key string "#int" + decimal) *)
+Theorem C20_dec_Z_injective : forall v w, dec_Z v = dec_Z w -> v = w.
+Proof. exact dec_Z_inj. Qed.
+Print Assumptions C20_dec_Z_injective.
+
+(* ================================================================== Part 3: the whole file *)
 (* the published reports are exactly the checks of the nodes the first pass visits ... *)
-Theorem C20_reports_are_visited_checks : forall fclose b r,
-  In r (run_block fclose b) <-> exists m, within children_vis (NB b) m /\ In r (local fclose m).
+Theorem C20_reports_are_visited_checks : forall fx fclose elses b r,
+  In r (run_block fx fclose elses b) <-> exists m, within (children_vis fx) (NB b) m /\ In r (local fx fclose elses m).
 Proof. exact run_block_iff. Qed.
 Print Assumptions C20_reports_are_visited_checks.
 
 (* ... each (type, Loc, message) once (three equal parameters: three pairs, two reports - one per later place) *)
-Theorem C20_once : forall fclose b, NoDup (run_block fclose b).
+Theorem C20_once : forall fx fclose elses b, NoDup (run_block fx fclose elses b).
 Proof. exact run_block_once. Qed.
 Print Assumptions C20_once.
 
 (* visited nodes are nodes of the tree ("nowhere else") ... *)
-Theorem C20_visited_are_nodes : forall n m, within children_vis n m -> within children_all n m.
+Theorem C20_visited_are_nodes : forall fx n m, within (children_vis fx) n m -> within children_all n m.
 Proof. exact within_vis_all. Qed.
 Print Assumptions C20_visited_are_nodes.
 
 (* ... and every node of the tree is visited ("at every place"), provided no local declaration has two or more surplus
-   values (C20_unvisited_refuted); bare assignment targets carry no check *)
-Theorem C20_every_node_visited_guarded : forall root m,
-  traversal_ok root -> within children_all root m -> ~ target_shape m -> within children_vis root m.
+   values (C20_unvisited_refuted; no such proviso after C20-local-surplus); bare assignment targets carry no check *)
+Theorem C20_every_node_visited_guarded : forall fx root m,
+  traversal_ok fx root -> within children_all root m -> ~ target_shape m -> within (children_vis fx) root m.
 Proof. exact visited_complete. Qed.
 Print Assumptions C20_every_node_visited_guarded.
 
@@ -161,8 +268,8 @@ Proof. exact demanded_iff. Qed.
 Print Assumptions C20_demanded_iff.
 
 (* the correspondence driver's model column is run_bytes *)
-Theorem C20_driver_runs_model : forall fclose gbk classify bs,
-  match check_bytes fclose gbk classify bs, run_bytes fclose gbk classify bs with
+Theorem C20_driver_runs_model : forall fx fclose gbk classify bs,
+  match check_bytes fx fclose gbk classify bs, run_bytes fx fclose gbk classify bs with
   | Ok o, Ok m => o_model o = m
   | Fault k, Fault k' => k = k'
   | OutOfFuel, OutOfFuel => True
@@ -171,118 +278,240 @@ Theorem C20_driver_runs_model : forall fclose gbk classify bs,
 Proof. exact check_bytes_model. Qed.
 Print Assumptions C20_driver_runs_model.
 
-(* ================================================================== witnesses: where the unchanged code deviates *)
+(* ... which is the shared front end (LuaFront.parse_bytes) followed by run_block on the parsed block *)
+Theorem C20_model_runs_on_front_end : forall fx fclose gbk classify bs,
+  match parse_bytes gbk classify bs, run_bytes fx fclose gbk classify bs with
+  | Ok (PR b _ _), Ok m => exists elses, m = run_block fx fclose elses b
+  | Ok PRTooMany, Ok m => m = []
+  | Fault k, Fault k' => k = k'
+  | OutOfFuel, OutOfFuel => True
+  | _, _ => False
+  end.
+Proof. exact run_bytes_front_end. Qed.
+Print Assumptions C20_model_runs_on_front_end.
+
+(* the executable patterns (the `spec` column of the correspondence leg) are the declarative ones *)
+Theorem C20_spec_binop_iff : forall fclose op a b l ty L,
+  In (ty, L) (spec_binop fclose op a b l)
+  <-> (ty = 15 /\ Pattern15 op a b /\ L = span (exp_loc a) (exp_loc b))
+      \/ (ty = 16 /\ Pattern16 op a b /\ L = span (exp_loc a) (exp_loc b))
+      \/ (ty = 21 /\ Pattern21 op a b /\ L = l)
+      \/ (ty = 14 /\ Pattern14 fclose op a b /\ L = span (exp_loc a) (exp_loc b)).
+Proof. exact spec_binop_iff. Qed.
+Print Assumptions C20_spec_binop_iff.
+
+Theorem C20_spec_table_iff : forall ks ty L,
+  In (ty, L) (spec_table ks [])
+  <-> ty = 5 /\ exists j ke, Pattern5 ks j /\ nth_error ks j = Some (Some ke) /\ L = exp_loc ke.
+Proof. exact spec_table_pattern. Qed.
+Print Assumptions C20_spec_table_iff.
+
+Theorem C20_spec_if_iff : forall fclose cs ty L,
+  In (ty, L) (spec_if fclose cs [])
+  <-> ty = 19 /\ exists j c, Pattern19 fclose cs j /\ nth_error cs j = Some c /\ L = exp_loc c.
+Proof. exact spec_if_pattern. Qed.
+Print Assumptions C20_spec_if_iff.
+
+Theorem C20_spec_assign_iff : forall fclose vars es l ty L,
+  In (ty, L) (spec_assign fclose vars es l)
+  <-> (ty = 7 /\ Pattern7 vars es /\ L = l) \/ (ty = 20 /\ Pattern20 fclose vars es /\ L = l).
+Proof. exact spec_assign_iff. Qed.
+Print Assumptions C20_spec_assign_iff.
+
+Theorem C20_spec_local_iff : forall names es l ty L,
+  In (ty, L) (spec_local names es l) <-> ty = 8 /\ Pattern8 names es /\ L = l.
+Proof. exact spec_local_iff. Qed.
+Print Assumptions C20_spec_local_iff.
+
+(* [repaired fx]: every repair but C20-local-surplus is in (true of [deployed]).
+   One node: its checks are exactly its patterns, under the node's part of the guard *)
+Theorem C20_node_exact : forall fx fclose elses n ty L,
+  repaired fx -> node_guard_b fx fclose n = true ->
+  (reported ty L (local fx fclose elses n) <-> In (ty, L) (spec_node fclose elses n)).
+Proof. exact (fun fx fclose elses n ty L H => node_exact fx fclose elses H n ty L). Qed.
+Print Assumptions C20_node_exact.
+
+(* THE FULL STATEMENT, GUARDED: for the repaired code the published reports of a file are exactly the places the patterns
+   demand, on every file that passes the boolean guard file_guard_b (PatternsClasses.v):
+     no comparison whose two operands are the same but have no internal name (C20_t14_literal_refuted),
+     no local declaration with two or more surplus values (C20_unvisited_refuted),
+     and the sanity of an error-free parse (operands / conditions are no BadExpr and carry a Loc; assignment targets are
+     names or table accesses).
+   The guard is computed for every case by the correspondence driver (o_guard). *)
+Theorem C20_full_guarded : forall fx fclose gbk classify bs o,
+  repaired fx ->
+  check_bytes fx fclose gbk classify bs = Ok o -> o_guard o = true ->
+  forall ty L, reported ty L (o_model o) <-> In (ty, L) (o_spec o).
+Proof. exact check_bytes_exact. Qed.
+Print Assumptions C20_full_guarded.
+
+Corollary C20_full_deployed_guarded : forall fclose gbk bs o,
+  check_bytes deployed fclose gbk classify_tok bs = Ok o -> o_guard o = true ->
+  forall ty L, reported ty L (o_model o) <-> In (ty, L) (o_spec o).
+Proof.
+  exact (fun fclose gbk bs o =>
+           check_bytes_exact deployed fclose gbk classify_tok bs o
+             (conj eq_refl (conj eq_refl (conj eq_refl (conj eq_refl (conj eq_refl eq_refl)))))).
+Qed.
+Print Assumptions C20_full_deployed_guarded.
+
+(* ================================================================== Part 4: witnesses *)
 Local Open Scope string_scope.
 Ltac witness := eexists; split; [split; vm_compute; reflexivity|vm_compute; repeat split; reflexivity].
 
-(* 14 reported for a string literal spelled like the internal name of a variable *)
-Theorem C20_t14_string_name_refuted :
-  exists o, valid_outcome "x = ""!a"" == a" o /\ over_reported o 14 = true /\ o_classes o = [C14Collision].
-Proof. witness. Qed.
-Print Assumptions C20_t14_string_name_refuted.
-
+(* ------------------------------------------------------------------ where the deployed code still deviates *)
 (* 14 never reported for literals (nor calls, operators, `...`): operands without internal name *)
 Theorem C20_t14_literal_refuted :
-  exists o, valid_outcome "x = 1 == 1" o /\ under_reported o 14 = true /\ o_classes o = [C14Unnamed].
+  exists o, valid_outcome deployed "x = 1 == 1" o /\ under_reported o 14 = true /\ o_classes o = [C14Unnamed].
 Proof. witness. Qed.
 Print Assumptions C20_t14_literal_refuted.
 
-(* 19 reported on `else`: the parser turns else into a synthetic `true` condition *)
-Theorem C20_t19_else_refuted :
-  exists o, valid_outcome "if true then x = 1 else x = 2 end" o /\ over_reported o 19 = true /\ o_classes o = [C19Else].
-Proof. witness. Qed.
-Print Assumptions C20_t19_else_refuted.
-
-Theorem C20_t19_parens_refuted :
-  exists o, valid_outcome "if a then x = 1 elseif (a) then x = 2 end" o /\ under_reported o 19 = true /\
-            o_classes o = [C19Parens].
-Proof. witness. Qed.
-Print Assumptions C20_t19_parens_refuted.
-
-(* a repeated nil condition is reported at the zero Location (line -1 on the wire), not at the condition *)
-Theorem C20_t19_nil_place_refuted :
-  exists o, valid_outcome "if nil then x = 1 elseif nil then x = 2 end" o /\ under_reported o 19 = true /\
-            reportedb 19 zero_loc (o_model o) = true /\ o_classes o = [C19NilPlace].
-Proof. witness. Qed.
-Print Assumptions C20_t19_nil_place_refuted.
-
-Theorem C20_t20_parens_refuted :
-  exists o, valid_outcome "a = (a)" o /\ under_reported o 20 = true /\ o_classes o = [C20Parens].
-Proof. witness. Qed.
-Print Assumptions C20_t20_parens_refuted.
-
-(* `nil or true` / `false and nil`: GetExpLoc has no case for NilExp, the zero Location suppresses the report *)
-Theorem C20_t15_nil_refuted :
-  exists o, valid_outcome "x = nil or true" o /\ under_reported o 15 = true /\ o_classes o = [C1516Nil].
-Proof. witness. Qed.
-Print Assumptions C20_t15_nil_refuted.
-
-Theorem C20_t16_nil_refuted :
-  exists o, valid_outcome "x = false and nil" o /\ under_reported o 16 = true /\ o_classes o = [C1516Nil].
-Proof. witness. Qed.
-Print Assumptions C20_t16_nil_refuted.
-
-(* 5: an integer key is reported on the whole constructor; three equal integer keys give ONE report *)
-Theorem C20_t5_int_place_refuted :
-  exists o, valid_outcome "t = {[1]=1, [1]=2, [1]=3}" o /\ under_reported o 5 = true /\ over_reported o 5 = true /\
-            List.length (o_model o) = 1%nat /\ List.length (o_spec o) = 2%nat /\ o_classes o = [C5IntPlace].
-Proof. witness. Qed.
-Print Assumptions C20_t5_int_place_refuted.
-
-Theorem C20_t5_collision_refuted :
-  exists o, valid_outcome "t = {[""!a""]=1, [a]=2, [""#int1""]=3, [1]=4}" o /\ over_reported o 5 = true /\
-            o_spec o = [] /\ o_classes o = [C5Collision].
-Proof. witness. Qed.
-Print Assumptions C20_t5_collision_refuted.
-
-Theorem C20_t5_empty_refuted :
-  exists o, valid_outcome "t = {[""""]=1, [""""]=2}" o /\ under_reported o 5 = true /\ o_model o = [] /\
-            o_classes o = [C5Empty].
-Proof. witness. Qed.
-Print Assumptions C20_t5_empty_refuted.
-
-(* the surplus values of a local declaration beyond index nNames are never visited *)
+(* the surplus values of a local declaration beyond index nNames are never visited (C20-local-surplus is prepared, not
+   deployed: it changes what every pass visits) *)
 Theorem C20_unvisited_refuted :
-  exists o, valid_outcome "local x = 1, 2, a == a" o /\ under_reported o 14 = true /\ o_classes o = [CUnvisited].
+  exists o, valid_outcome deployed "local x = 1, 2, a == a" o /\ under_reported o 14 = true /\ o_classes o = [CUnvisited].
 Proof. witness. Qed.
 Print Assumptions C20_unvisited_refuted.
 
 (* two places with one Loc (the column defects of the lexer, property C04): their reports are de-duplicated *)
 Theorem C20_loc_collision_refuted :
-  exists o, valid_outcome "f = function(a, --[[c]] a, --[[c]] a) end" o /\
+  exists o, valid_outcome deployed "f = function(a, --[[c]] a, --[[c]] a) end" o /\
             List.length (o_model o) = 1%nat /\ List.length (o_spec o) = 2%nat /\ o_classes o = [CLocCollision].
 Proof. witness. Qed.
 Print Assumptions C20_loc_collision_refuted.
 
-(* hence the full statement does not hold for the unchanged code *)
+(* hence the full statement does not hold for the deployed code either *)
 Theorem C20_full_refuted : ~ C20_full.
 Proof.
-  destruct C20_t14_string_name_refuted as [o [Hvo [Ho _]]].
-  exact (full_refuted_from _ o 14 Hvo Ho).
+  destruct C20_t14_literal_refuted as [o [Hvo [Ho _]]].
+  exact (full_refuted_from_under deployed _ o 14 Hvo Ho).
 Qed.
 Print Assumptions C20_full_refuted.
+
+(* ------------------------------------------------------------------ repaired: the old witnesses, before and after *)
+(* before: the deviation and its class in the code as found; after: the deployed code agrees with the pattern *)
+Example C20_t14_string_name_regression :
+  (exists o, valid_outcome no_fixes "x = ""!a"" == a" o /\ over_reported o 14 = true /\ o_classes o = [C14Collision]) /\
+  (exists o, valid_outcome deployed "x = ""!a"" == a" o /\ agrees o = true /\ o_model o = [] /\ o_classes o = []).
+Proof. split; witness. Qed.
+
+Example C20_t19_else_regression :
+  (exists o, valid_outcome no_fixes "if true then x = 1 else x = 2 end" o /\ over_reported o 19 = true /\
+             o_classes o = [C19Else]) /\
+  (exists o, valid_outcome deployed "if true then x = 1 else x = 2 end" o /\ agrees o = true /\ o_model o = [] /\
+             o_classes o = []).
+Proof. split; witness. Qed.
+
+(* a genuine repeated `true` is still reported in front of an else branch *)
+Example C20_t19_else_true_regression :
+  exists o, valid_outcome deployed "if true then x = 1 elseif true then x = 2 else x = 3 end" o /\ agrees o = true /\
+            List.length (o_model o) = 1%nat /\ o_classes o = [].
+Proof. witness. Qed.
+
+Example C20_t19_parens_regression :
+  (exists o, valid_outcome no_fixes "if a then x = 1 elseif (a) then x = 2 end" o /\ under_reported o 19 = true /\
+             o_classes o = [C19Parens]) /\
+  (exists o, valid_outcome deployed "if a then x = 1 elseif (a) then x = 2 end" o /\ agrees o = true /\
+             List.length (o_model o) = 1%nat /\ o_classes o = []).
+Proof. split; witness. Qed.
+
+(* a repeated nil condition: was reported at the zero Location (line -1 on the wire) *)
+Example C20_t19_nil_place_regression :
+  (exists o, valid_outcome no_fixes "if nil then x = 1 elseif nil then x = 2 end" o /\ under_reported o 19 = true /\
+             reportedb 19 zero_loc (o_model o) = true /\ o_classes o = [C19NilPlace]) /\
+  (exists o, valid_outcome deployed "if nil then x = 1 elseif nil then x = 2 end" o /\ agrees o = true /\
+             List.length (o_model o) = 1%nat /\ o_classes o = []).
+Proof. split; witness. Qed.
+
+Example C20_t20_parens_regression :
+  (exists o, valid_outcome no_fixes "a = (a)" o /\ under_reported o 20 = true /\ o_classes o = [C20Parens]) /\
+  (exists o, valid_outcome deployed "a = (a)" o /\ agrees o = true /\ List.length (o_model o) = 1%nat /\ o_classes o = []).
+Proof. split; witness. Qed.
+
+(* the parentheses of `(f())` are no grouping parentheses: `f((g()))` and `f(g())` stay different, `(f())` and `((f()))` are
+   the same *)
+Example C20_parens_adjust_regression :
+  exists o, valid_outcome deployed
+    "if f((g())) then elseif f(g()) then elseif (f((g()))) then end if (f()) then elseif f() then elseif ((f())) then end" o /\
+    agrees o = true /\ List.length (o_model o) = 1%nat /\ o_classes o = [].
+Proof. witness. Qed.
+
+(* `nil or true` / `false and nil`: GetExpLoc had no case for NilExp, the zero Location suppressed the report *)
+Example C20_t15_nil_regression :
+  (exists o, valid_outcome no_fixes "x = nil or true" o /\ under_reported o 15 = true /\ o_classes o = [C1516Nil]) /\
+  (exists o, valid_outcome deployed "x = nil or true" o /\ agrees o = true /\ List.length (o_model o) = 1%nat /\
+             o_classes o = []).
+Proof. split; witness. Qed.
+
+Example C20_t16_nil_regression :
+  (exists o, valid_outcome no_fixes "x = false and nil" o /\ under_reported o 16 = true /\ o_classes o = [C1516Nil]) /\
+  (exists o, valid_outcome deployed "x = false and nil" o /\ agrees o = true /\ List.length (o_model o) = 1%nat /\
+             o_classes o = []).
+Proof. split; witness. Qed.
+
+(* 5: an integer key was reported on the whole constructor; three equal integer keys gave ONE report *)
+Example C20_t5_int_place_regression :
+  (exists o, valid_outcome no_fixes "t = {[1]=1, [1]=2, [1]=3}" o /\ under_reported o 5 = true /\
+             over_reported o 5 = true /\ List.length (o_model o) = 1%nat /\ List.length (o_spec o) = 2%nat /\
+             o_classes o = [C5IntPlace]) /\
+  (exists o, valid_outcome deployed "t = {[1]=1, [1]=2, [1]=3}" o /\ agrees o = true /\
+             List.length (o_model o) = 2%nat /\ o_classes o = []).
+Proof. split; witness. Qed.
+
+Example C20_t5_collision_regression :
+  (exists o, valid_outcome no_fixes "t = {[""!a""]=1, [a]=2, [""#int1""]=3, [1]=4}" o /\ over_reported o 5 = true /\
+             o_spec o = [] /\ o_classes o = [C5Collision]) /\
+  (exists o, valid_outcome deployed "t = {[""!a""]=1, [a]=2, [""#int1""]=3, [1]=4}" o /\ agrees o = true /\
+             o_model o = [] /\ o_classes o = []).
+Proof. split; witness. Qed.
+
+Example C20_t5_empty_regression :
+  (exists o, valid_outcome no_fixes "t = {[""""]=1, [""""]=2}" o /\ under_reported o 5 = true /\ o_model o = [] /\
+             o_classes o = [C5Empty]) /\
+  (exists o, valid_outcome deployed "t = {[""""]=1, [""""]=2}" o /\ agrees o = true /\
+             List.length (o_model o) = 1%nat /\ o_classes o = []).
+Proof. split; witness. Qed.
+
+(* prepared, not deployed: with C20-local-surplus the surplus values are visited *)
+Example C20_unvisited_all_fixes :
+  exists o, valid_outcome all_fixes "local x = 1, 2, a == a" o /\ agrees o = true /\ List.length (o_model o) = 2%nat /\
+            o_classes o = [].
+Proof. witness. Qed.
 
 (* ================================================================== non-vacuity *)
 (* "once": three equal parameters - the pairwise loop finds three pairs, two reports are published, and they are the two
    later places the pattern demands; same for three equal conditions *)
 Example C20_once_example :
-  exists o, valid_outcome "f = function(a, a, a) end if a then elseif a then elseif a then end" o /\
+  exists o, valid_outcome deployed "f = function(a, a, a) end if a then elseif a then elseif a then end" o /\
             agrees o = true /\ List.length (o_model o) = 4%nat /\ o_classes o = [].
 Proof. witness. Qed.
 
-(* a file with an instance of every pattern inside closures / constructors / arguments / conditions on which the
-   unchanged code is exact *)
+(* a file with an instance of every pattern inside closures / constructors / arguments / conditions on which the code is
+   exact - as found and as deployed *)
 Example C20_agreeing_example :
-  exists o, valid_outcome
+  forall fx, In fx [no_fixes; deployed] ->
+  exists o, valid_outcome fx
     "local t = { k = 1, k = 2, [a] = f(a.b == a.b, x or true, y and false, z == 0.5) } function g(p, p) if p then p = p elseif p then local u, v = 1 u, v = 1, 2, 3 end end" o
     /\ agrees o = true /\ List.length (o_model o) = 10%nat /\ o_classes o = [].
-Proof. witness. Qed.
+Proof. intros fx [<-|[<-|[]]]; witness. Qed.
+
+(* the guard of C20_full_guarded holds on that file, and fails on the two remaining deviations *)
+Example C20_full_guard_example :
+  (exists o, valid_outcome deployed
+    "local t = { k = 1, k = 2, [a] = f(a.b == a.b, x or true, y and false, z == 0.5) } function g(p, p) if p then p = p elseif (p) then local u, v = 1 u, v = 1, 2, 3 else t = {[1] = nil or true, [1] = 2} end end" o
+    /\ o_guard o = true /\ agrees o = true /\ List.length (o_model o) = 12%nat) /\
+  (exists o, valid_outcome deployed "x = 1 == 1" o /\ o_guard o = false) /\
+  (exists o, valid_outcome deployed "local x = 1, 2, a == a" o /\ o_guard o = false).
+Proof. split; [|split]; witness. Qed.
 
 (* the guards are satisfiable by non-trivial nodes *)
+Example C20_fixes_ok_example : fixes_ok no_fixes /\ fixes_ok deployed /\ fixes_ok all_fixes.
+Proof. repeat split; intros H; try reflexivity; discriminate. Qed.
+
 Example C20_t14_guard_example :
   let a1 := EIndex (EName [97] (mkLoc 1 0 1 1)) (EStr [98] (mkLoc 1 2 1 3)) (mkLoc 1 0 1 3) in
   let a2 := EParens (EIndex (EName [97] (mkLoc 1 8 1 9)) (EStr [98] (mkLoc 1 10 1 11)) (mkLoc 1 8 1 11)) (mkLoc 1 7 1 12) in
-  path a1 = true /\ path a2 = true /\ located a1 /\ located a2 /\ Pattern14 fc_text TkOpEq a1 a2.
+  path a1 = true /\ path a2 = true /\ located no_fixes a1 /\ located no_fixes a2 /\ Pattern14 fc_text TkOpEq a1 a2.
 Proof.
   cbv zeta. split; [reflexivity|]. split; [reflexivity|].
   split; [split; [reflexivity|discriminate]|]. split; [split; [reflexivity|discriminate]|].
@@ -293,9 +522,19 @@ Qed.
 
 Example C20_t19_t20_guard_example :
   let c := EBinop TkOpEq (EName [120] (mkLoc 1 3 1 4)) (EInt 1 (mkLoc 1 8 1 9)) (mkLoc 1 3 1 9) in
-  real_conds [] [c; c] = [c; c] /\ Forall paren_free [c; c] /\ Forall located [c; c] /\ Pattern19 fc_text [c; c] 1.
+  real_conds [] [c; c] = [c; c] /\ Forall paren_free [c; c] /\ Forall (located no_fixes) [c; c] /\
+  Pattern19 fc_text [c; c] 1.
 Proof.
   cbv zeta. split; [reflexivity|]. split; [repeat constructor|]. split; [repeat constructor; discriminate|].
   eexists. split; [reflexivity|]. exists O. eexists. split; [auto|]. split; [reflexivity|].
   apply same_b_iff. reflexivity.
+Qed.
+
+(* after C20-nil-loc the literal nil is an operand like any other *)
+Example C20_real_loc_example :
+  let e := ENil (mkLoc 1 4 1 7) in
+  real_loc e /\ located deployed e /\ ~ located no_fixes e.
+Proof.
+  cbv zeta. split; [split; [reflexivity|discriminate]|]. split; [split; [reflexivity|discriminate]|].
+  intros [H _]. discriminate.
 Qed.
